@@ -145,6 +145,15 @@ func (x *Exec) execInstr(t *Thread, f *Frame, instr ssa.Instruction) {
 		x.execTypeAssert(f, in)
 	case *ssa.If:
 		c := x.get(f, in.Cond).(*Term)
+		if !c.IsConst() && x.known(c) == 0 {
+			if f.symIf == nil {
+				f.symIf = map[*ssa.If]int{}
+			}
+			f.symIf[in]++
+			if f.symIf[in] > x.P.Cfg.Unwind {
+				x.end("inconclusive", fmt.Sprintf("unwind: symbolic loop condition taken more than %d times at %s", x.P.Cfg.Unwind, x.lastPos))
+			}
+		}
 		if x.branch(c) {
 			x.jump(f, f.block.Succs[0])
 		} else {
